@@ -34,9 +34,58 @@ func deferredDone(g *ssa.Function) bool {
 			if _, ok := isWGMethod(&d.Call, "Done"); ok {
 				return true
 			}
+			// a deferred helper that is handed the WaitGroup and marks it done on every path
+			// (defer deliver(out, &result, wg))
+			if h := d.Call.StaticCallee(); h != nil && h.Blocks != nil {
+				for i, a := range d.Call.Args {
+					if a.Type().String() == "*sync.WaitGroup" && i < len(h.Params) && callsDoneOnEveryPath(h, h.Params[i]) {
+						return true
+					}
+				}
+			}
 		}
 	}
 	return false
+}
+
+// callsDoneOnEveryPath: every return of h is dominated by a call wg.Done() on its parameter q
+func callsDoneOnEveryPath(h *ssa.Function, q *ssa.Parameter) bool {
+	var dones []*ssa.BasicBlock
+	for _, b := range h.Blocks {
+		for _, ins := range b.Instrs {
+			var cc *ssa.CallCommon
+			switch x := ins.(type) {
+			case *ssa.Call:
+				cc = &x.Call
+			case *ssa.Defer:
+				cc = &x.Call
+			}
+			if cc == nil {
+				continue
+			}
+			if _, ok := isWGMethod(cc, "Done"); ok && len(cc.Args) > 0 && cc.Args[0] == ssa.Value(q) {
+				dones = append(dones, b)
+			}
+		}
+	}
+	if len(dones) == 0 {
+		return false
+	}
+	for _, b := range h.Blocks {
+		if _, ok := b.Instrs[len(b.Instrs)-1].(*ssa.Return); !ok {
+			continue
+		}
+		dom := false
+		for _, d := range dones {
+			if d == b || d.Dominates(b) {
+				dom = true
+			}
+		}
+		if !dom {
+			return false
+		}
+	}
+	return true
 }
 
 // funcsOfType: package-level functions / methods used as values whose signature is identical to t.
@@ -59,7 +108,7 @@ func (p *Prog) funcsOfSignature(sig *types.Signature) []*ssa.Function {
 }
 
 func ruleP1(p *Prog) *RuleResult {
-	res := newResult("P1", ruleDoc["P1"], 15)
+	res := newResult("P1", ruleDoc["P1"], 10)
 	for _, f := range p.sourceFns() {
 		// functions that call wg.Wait
 		var waits []*ssa.Call
